@@ -120,6 +120,20 @@ pub fn custom_section_bytes(name: &[u8], data: &[u8]) -> Vec<u8> {
     out
 }
 
+/// The same section with its two length fields (section size, name length) written as LEBs padded by
+/// `size_pad` / `name_pad` extra bytes (non-canonical but legal; capped at 5 bytes each).
+pub fn custom_section_bytes_padded(name: &[u8], data: &[u8], size_pad: usize, name_pad: usize) -> Vec<u8> {
+    let nl = leb_u32(name.len() as u32);
+    let mut payload = leb_u32_padded(name.len() as u32, (nl.len() + name_pad).min(5));
+    payload.extend_from_slice(name);
+    payload.extend_from_slice(data);
+    let sl = leb_u32(payload.len() as u32);
+    let mut out = vec![0u8];
+    out.extend_from_slice(&leb_u32_padded(payload.len() as u32, (sl.len() + size_pad).min(5)));
+    out.extend_from_slice(&payload);
+    out
+}
+
 /// (name, payload) of every custom section, in order.
 pub fn customs(b: &[u8]) -> Option<Vec<(Vec<u8>, Vec<u8>)>> {
     let secs = split(b)?;
